@@ -29,8 +29,8 @@ INFO = {
                            "terminal (emulator)", "COLUMNS"],
     "assumptions": [
         "progress character has at most one visible cell; bar characters are single cells",
-        "start(max) keeps the zero/non-zero class of the constructor's maximum (a format resolved "
-        "for a known maximum cannot render without one)",
+        "start(max) may give a bar without maximum one and take it away again (a quarter of the restarts with "
+        "an explicit maximum): the format is then resolved again, a format and its _nomax variant",
         "terminal wider than any frame (wrapping of frames is C15's subject)",
         "throttle distance asserted only between consecutive advance-caused redraws that did not "
         "reach the maximum, measured from the start of the first to the end of the second redraw",
@@ -38,7 +38,8 @@ INFO = {
 }
 EXPECTED_PROBES = ("advance_throttled", "max_reached_while_throttled", "forced_by_max_interval",
                    "frame_shorter_than_previous", "multiline_format", "max_grown_by_overshoot",
-                   "finish_with_max_0", "styled_message", "backward_clock", "terminal_exactly_frame_wide", "quiet_section")
+                   "finish_with_max_0", "styled_message", "backward_clock", "terminal_exactly_frame_wide", "quiet_section",
+                   "restart_gains_or_loses_the_maximum")
 
 _pb = None
 
@@ -135,6 +136,9 @@ def gen(S, tier):
 
 
 def _same_class_max(w, mx):
+    if w.chance(0.25):
+        # the bar is started again with any maximum: one that had none gets one, and the other way round
+        return w.pick(MAXES)
     if mx == 0:
         return 0
     return w.pick([m for m in MAXES if m > 0])
@@ -420,7 +424,11 @@ def _run(sc, cfg, res, clock, log, columns=200):
                 if op[1] is None:
                     bar.start()
                 else:
+                    if bool(op[1]) != bool(max_before):
+                        res.probe("restart_gains_or_loses_the_maximum")
                     bar.start(op[1])
+                    M["setup_max"] = max(0, op[1])
+                    M["format"] = None  # a format and its no-maximum variant: resolved again for the new maximum
             elif name == "advance":
                 bar.advance(op[1])
             elif name == "set":
@@ -614,13 +622,13 @@ def _run(sc, cfg, res, clock, log, columns=200):
                 f = lf["f"]
                 if "current" in f and int(f["current"]) != mx:
                     res.violate("finish_draws", kind, "last frame after finish shows %s, maximum is %r" % (f["current"].strip(), mx))
-                # "at 100 %" presupposes a maximum known when the bar was set up
+                # "at 100 %" presupposes a maximum known when the bar was set up or last started
                 if kind == "ansi" and "lines" in lf and not M["first_frame"]:
                     nl_ = len(lf["lines"])
                     shown = [screen.row_text(M["base"] + i) for i in range(nl_)]
                     if shown != lf["lines"]:
                         res.violate("finish_draws", "screen", "after finish the terminal shows %r, the final frame is %r" % (shown, lf["lines"]))
-                if "percent" in f and cfg["max"] and int(f["percent"]) != 100:
+                if "percent" in f and M.get("setup_max", cfg["max"]) and int(f["percent"]) != 100:
                     res.violate("finish_draws", "percent", "last frame after finish shows %s%%" % f["percent"].strip())
         res.states.add((kind, mx, step, (M["format"] or "").count("\n"), bool(min_us and not drew)))
 
